@@ -32,6 +32,16 @@ void GlobalInitializationManager::initialize_global_variables(
                 debug_msg(DebugMsgId::INTERPRETER_FOUND_VAR_DECL,
                           stmt->name.c_str());
                 initialize_global_variables(stmt.get());
+            } else if (stmt->node_type == ASTNodeType::AST_MULTIPLE_VAR_DECL) {
+                // 複数変数宣言（const int A = 1, B = 2;）は宣言子ごとに処理
+                for (const auto &child : stmt->children) {
+                    if (child->node_type == ASTNodeType::AST_VAR_DECL &&
+                        child->is_const && !child->is_array) {
+                        debug_msg(DebugMsgId::INTERPRETER_FOUND_VAR_DECL,
+                                  child->name.c_str());
+                        initialize_global_variables(child.get());
+                    }
+                }
             }
         }
 
@@ -47,6 +57,21 @@ void GlobalInitializationManager::initialize_global_variables(
                 debug_msg(DebugMsgId::INTERPRETER_FOUND_VAR_DECL,
                           stmt->name.c_str());
                 initialize_global_variables(stmt.get());
+            } else if (stmt->node_type == ASTNodeType::AST_MULTIPLE_VAR_DECL) {
+                // 複数変数宣言（int a = 1, b = 2;）は宣言子ごとに初期化する
+                // （各宣言子は単独の変数宣言と同じ AST_VAR_DECL ノード）
+                for (const auto &child : stmt->children) {
+                    if (child->node_type != ASTNodeType::AST_VAR_DECL) {
+                        continue;
+                    }
+                    // 第1パスで既に初期化されたconst変数をスキップ
+                    if (child->is_const && !child->is_array) {
+                        continue;
+                    }
+                    debug_msg(DebugMsgId::INTERPRETER_FOUND_VAR_DECL,
+                              child->name.c_str());
+                    initialize_global_variables(child.get());
+                }
             }
         }
         break;
